@@ -1,6 +1,12 @@
 import Driver.Util
 import DiskfsModel.Model.Detect
 import DiskfsModel.Model.DetectFat32
+import DiskfsModel.Model.DetectMid
+import DiskfsModel.Model.DetectTable
+import DiskfsModel.Model.Ext4.ReaderCfg
+import DiskfsModel.Model.Ext4.Mkfs
+import DiskfsModel.Model.Sqfs.Regions
+import DiskfsModel.Core.Crc
 import DiskfsModel.Generated.Detect
 namespace Driver.Detect
 open Diskfs Diskfs.Detect Driver
@@ -42,18 +48,45 @@ def deepOf (s : String) (k : Kind) : Verdict :=
   | 'p' => .panic
   | _ => .reject
 
-/-- detect.probe size= avail= ss= win= deep=  →  acc=<one char per kind> probe=<kind|none|panic> -/
+/-- residual verdict of a reader behind the modelled part, from the stage at which the real reader stopped:
+    '1' accepted, 'h' refused inside the modelled part (the model has to refuse by itself), 'd' refused
+    behind it, 'u' refused somewhere the engine cannot place, 'p' panicked -/
+def residualOf (c : Char) : Verdict :=
+  match c with
+  | '1' => .accept | 'h' => .accept | 'p' => .panic | _ => .reject
+
+/-- detect.probe size= avail= ss= win= deep=  →  acc=<one char per kind> probe=<kind|none|panic>
+    with stg=<one char per kind> csum=<0|1>: the parts of squashfs / ext4 / iso9660 Read of Model/DetectMid.lean
+    are computed by the model (stg: see residualOf; fat32 'm' = FAT copies supplied) and
+    mid=<iso, squashfs, ext4: does header + modelled part accept: 1|0|?> is appended -/
 def probeCase (args : List String) : String :=
   let rd := mkRd (parseWins ((arg args "win").getD ""))
-  let deepS := (arg args "deep").getD "000000"
   let avail := argNatD args "avail"
-  -- 'm' in FAT32's position: the engine supplied the FAT windows, the model compares the copies itself
-  let deep : Kind → Verdict := fun k =>
-    if k == .fat32 && deepS.toList.getD 0 '0' == 'm' then fat32Deep rd avail else deepOf deepS k
-  let c : Ctx := { size := argNatD args "size", avail := avail, bs := argNatD args "ss" 512, deep := deep }
-  let v := verdict params rd c
-  let acc := String.ofList (Kind.all.map fun k => vChar (v k))
-  s!"acc={acc}\tprobe={(probe v order).str}"
+  let size := argNatD args "size"
+  let ss := argNatD args "ss" 512
+  match arg args "stg" with
+  | none =>
+    let deepS := (arg args "deep").getD "000000"
+    -- 'm' in FAT32's position: the engine supplied the FAT windows, the model compares the copies itself
+    let deep : Kind → Verdict := fun k =>
+      if k == .fat32 && deepS.toList.getD 0 '0' == 'm' then fat32Deep rd avail else deepOf deepS k
+    let c : Ctx := { size := size, avail := avail, bs := ss, deep := deep }
+    let v := verdict params rd c
+    let acc := String.ofList (Kind.all.map fun k => vChar (v k))
+    s!"acc={acc}\tprobe={(probe v order).str}"
+  | some stg =>
+    let st (k : Kind) : Char := stg.toList.getD (Kind.all.idxOf k) '0'
+    let csum := argNatD args "csum" 1 == 1
+    let cfg := Ext4.Reader.Cfg.current
+    let mk (res : Kind → Verdict) : Ctx :=
+      let m := midCtx cfg rd size avail ss csum res
+      { m with deep := fun k => if k == .fat32 && st .fat32 != 'm' then deepOf stg .fat32 else m.deep k }
+    let v := verdict params rd (mk fun k => residualOf (st k))
+    let vAcc := verdict params rd (mk fun _ => .accept)
+    let acc := String.ofList (Kind.all.map fun k => vChar (v k))
+    let mid := String.ofList ([Kind.iso9660, .squashfs, .ext4].map fun k =>
+      if st k == 'u' || st k == 'p' then '?' else vChar (vAcc k))
+    s!"acc={acc}\tprobe={(probe v order).str}\tmid={mid}"
 
 def shapeStr (ws : List Wr) : String :=
   ",".intercalate ((shape ws).map fun p => s!"{p.1}:{p.2}")
@@ -95,6 +128,45 @@ def tableCase (args : List String) : String :=
   | some .mbr => "table=mbr"
   | none => "table=none"
 
+/-- detect.table2 size= ss= win= [cfg=]  →  table=gpt|mbr|none|panic n=<GPT: partitions read> legacy=<0|1>:
+    partition.Read over the real acceptance conditions of gpt.Read and mbr.Read (Model/DetectTable.lean) on the
+    bytes of the device (sector 0, both headers, both entry arrays) -/
+def table2Case (args : List String) : String :=
+  let rd := mkRd (parseWins ((arg args "win").getD ""))
+  let cfg : Gpt.Cfg := match ((arg args "cfg").getD "11111").toList with
+    | [a, b, c, d, e] => ⟨a == '1', b == '1', c == '1', d == '1', e == '1'⟩
+    | _ => Gpt.Cfg.fixed
+  let r := tableRead Generated.Detect.tableReadChecksLegacyMBR cfg crc32 rd (argNatD args "size") (argNatD args "ss" 512)
+  let leg := if legacyMBR rd then 1 else 0
+  match r with
+  | .gpt t => s!"table=gpt\tn={t.parts.length}\tlegacy={leg}"
+  | .mbr _ => s!"table=mbr\tn=-\tlegacy={leg}"
+  | .none => s!"table=none\tn=-\tlegacy={leg}"
+  | .panic => s!"table=panic\tn=-\tlegacy={leg}"
+
+/-- detect.ext4geo size= spb= bpg= ratio= icount= logflex= resize= flex= bit64=  →  the geometry fields
+    ext4.Create puts into the superblock (Model/Ext4/Mkfs.lean layout → ext4MkGeo), whether ext4.Read's validity
+    checks accept them for a volume of that size and where it reads the descriptor table | refused -/
+def ext4GeoCase (args : List String) : String :=
+  let b (k : String) : Bool := argNatD args k 0 == 1
+  let p : Ext4.Mkfs.Params :=
+    { size := argNatD args "size", spb := argNatD args "spb", bpg := argNatD args "bpg", inodeRatio := argNatD args "ratio",
+      inodeCount := argNatD args "icount", logFlex := argNatD args "logflex", resize := b "resize", flex := b "flex",
+      bit64 := b "bit64" }
+  match Ext4.Mkfs.mkLayout p with
+  | .error _ => "refused"
+  | .ok l =>
+    let m : Ext4Mk := ⟨l.bs, l.numBlocks, l.bpg, l.ipg, l.groups, l.fdb, l.descSize == 64⟩
+    let g := ext4MkGeo m 0 (0x40 + (if m.bit64 then 0x80 else 0)) 0
+    s!"geo={g.blockSize},{g.inodeSize},{g.inodesPerGroup},{g.blocksPerGroup},{g.firstDataBlock},{g.inodeCount},{g.blockCount},{g.gdSize}\tacc={if Ext4.Spec.readAccepts g p.size then 1 else 0}\tgdt={g.gdtStartGo}:{g.gdSize * g.groupsGo}"
+
+/-- detect.sqfslast → last=<off>:<len>: the last write of squashfs Finalize in the model (Model/Sqfs/Regions.lean
+    `finalize`: the superblock, whatever the pieces are) -/
+def sqfsLastCase (_args : List String) : String :=
+  match (Sqfs.finalize ⟨0, [], [], [], [], [], none, []⟩).writes.getLast? with
+  | some w => s!"last={w.1}:{w.2}"
+  | none => "last=-"
+
 end Driver.Detect
 
 def main : IO Unit := Driver.runLoop fun op args =>
@@ -104,4 +176,7 @@ def main : IO Unit := Driver.runLoop fun op args =>
   | "detect.ext4boot" => Driver.Detect.ext4BootCase args
   | "detect.fat32" => Driver.Detect.fat32Case args
   | "detect.table" => Driver.Detect.tableCase args
+  | "detect.table2" => Driver.Detect.table2Case args
+  | "detect.ext4geo" => Driver.Detect.ext4GeoCase args
+  | "detect.sqfslast" => Driver.Detect.sqfsLastCase args
   | _ => "unknown-op"
